@@ -51,7 +51,8 @@ TEXT = {
           "entries stays covered by the balance through every receive (applied or refunded) and every history, the per-"
           "beneficiary fused total equals the sum of its fusion entries, each withdrawal pays only the recorded owner, only "
           "after the lock matured, exactly the recorded amount, and the same withdrawal cannot pay twice. Tied to the tree by "
-          "the contract stream (real node, every receive predicted, storage compared after each momentum) and model-free "
+          "the contract stream (real node, every receive predicted, storage compared after each momentum; htlc secrets "
+          "with lengths around KeyMaxSize, 255/256/257 and k*256+j presented against their real digest) and model-free "
           "monitors on the real storage and blocks.",
   "design_ref": "§3 C10",
   "note": "Reward bookkeeping, liquidity reward pools, bridge wrap/fees/administration are outside the models (observed "
@@ -117,7 +118,11 @@ TEXT = {
           "hostile encodings of every method, result + decoded values + re-packed bytes compared with the model) and "
           "autoreceive (every contract x method x 0..3 sporks x four generators x template/gossip delivery; the "
           "producer's calls made under recover; monitors: no panic or error on the receive path, exactly one receive, "
-          "status 1 or exact refund with byte-identical storage, every inbox drained).",
+          "status 1 or exact refund with byte-identical storage, every inbox drained; plus a systematic sweep of every "
+          "integer argument and of the block amount of every method over 0/1/2, 2^k-1/2^k/2^k+1, every numeric bound of "
+          "vm/constants +-1, the ends of the argument's type and the balances / token supplies +-1, incl. amounts in a "
+          "token of maximal supply; plus reward epochs reached with degenerate participants: weightless / no / single "
+          "backers, total weight 0, idle producer, revoked sentinel / stake / pillar entries).",
   "design_ref": "§3 C09",
   "note": "Panic-freedom/termination of the Go method bodies (T4, T5) is by the autoreceive stream's monitors, not by "
           "per-method Lean models. Known finding F18 (reproduced on the unchanged tree by the scenario "
